@@ -77,7 +77,7 @@ inline std::vector<uint8_t> gen_content_sized(vf::Tape& t, size_t target, Conten
             for (size_t i = 0; i < room; i++) out.push_back((uint8_t)('a' + ((i / per) + (x.s & 3)) % 13));
             break;
         }
-        switch (t.weighted({4, 2, 5, 2, 2, 1, 1})) {
+        switch (t.weighted({4, 2, 5, 2, 2, 1, 1, 2})) {
             case 0: {  // LIT over an alphabet
                 size_t len = gen_len(t, room);
                 unsigned alpha = (unsigned)t.pick<unsigned>({2, 4, 16, 64, 256, 1, 3, 200});
@@ -139,6 +139,21 @@ inline std::vector<uint8_t> gen_content_sized(vf::Tape& t, size_t target, Conten
                 size_t from = out.size() - dist;
                 for (size_t i = 0; i < len; i++) out.push_back(out[from + i]);
                 ci.farcopies++; ci.copies++;
+                break;
+            }
+            case 7: {  // REPEATSEG: one segment repeated k times with differing bytes between (records with a common field:
+                       // equal-length match candidates, hash-bucket ties, LDM and repcode material)
+                size_t seglen = (size_t)t.range(16, 4096);
+                unsigned k = (unsigned)t.range(2, 40);
+                size_t gap = (size_t)t.range(1, 300);
+                Xs x(t.raw() + 11);
+                std::vector<uint8_t> seg(seglen);
+                for (auto& b : seg) b = (uint8_t)x.next();
+                for (unsigned r = 0; r < k && out.size() < target; r++) {
+                    for (size_t i = 0; i < seglen && out.size() < target; i++) out.push_back(seg[i]);
+                    for (size_t i = 0; i < gap && out.size() < target; i++) out.push_back((uint8_t)x.next());
+                }
+                ci.copies++;
                 break;
             }
             case 6: {  // BIGLIT: > 64 KiB of match-free but entropy-compressible literals (split literal buffer, 4-stream Huffman)
